@@ -1316,7 +1316,8 @@ func (s *sharedEntryAttributes) populateChoiceCaseResolvers(ctx context.Context)
 			isNew := false
 			var val2 *int32
 			// Query the Index, stored in the treeContext for the per branch highes precedence
-			v := s.treeContext.GetTreeSchemaCacheClient().GetBranchesHighesPrecedence(ctx, append(s.Path(), elem), CacheUpdateFilterExcludeOwner(s.treeContext.GetActualOwner()))
+			// the stored entries of all the intents of this transaction are left out, their old and new content is in the tree
+			v := s.treeContext.GetTreeSchemaCacheClient().GetBranchesHighesPrecedence(ctx, append(s.Path(), elem), CacheUpdateFilterExcludeOwners(s.treeContext.GetOwners()))
 
 			// the precedence the branch had before this transaction: what the other owners have stored and, from the
 			// tree, also the entries of the acting owner that this transaction removes
